@@ -1,5 +1,6 @@
 import PhysisModel.Proofs.GameData
 import PhysisModel.Model.Extract
+import PhysisModel.Proofs.Archive
 /-!
 # C01 — archive lookup finds every stored game path, and only stored paths, history-independently
 
@@ -31,6 +32,16 @@ theorem c01_answers (disk : Disk) (a : Archive) (hr : Realises disk a) (hw : a.W
     (step disk (run disk (fresh a) qs) q).1 = specAnswer a q := by
   have hinv := run_inv disk _ qs (fresh a) (fresh_inv disk a)
   rw [(step_eq disk _ _ q hinv).1, pureAnswer_eq disk a hr hw q]
+
+/-- The hypothesis `Realises` is satisfiable for **every** archive: index file names are
+unambiguous on the slots lookup can name (expansions 0..9, chunks 0..254), so the disk holding
+exactly the archive's index files under their names realises it. -/
+theorem c01_realisable (a : Archive) : Realises (diskOf a) a := realises_diskOf a
+
+/-- the main theorem on the canonical disk: no hypothesis besides well-formedness -/
+theorem c01_answers_canonical (a : Archive) (hw : a.WF) (qs : List Query) (q : Query) :
+    (step (diskOf a) (run (diskOf a) (fresh a) qs) q).1 = specAnswer a q :=
+  c01_answers (diskOf a) a (realises_diskOf a) hw qs q
 
 /-- `locate` finds something exactly for the stored paths (sanity of the specification) -/
 theorem c01_stored_iff_locate (a : Archive) (p : Bytes) : Stored a p ↔ (locate a p).isSome = true := by
